@@ -33,6 +33,20 @@ DOWN = [0, 0, 0.25, 1.5, 5]
 TTL = 900       # execution_ttl (s): the back stop that ends an execution whose task request was never sent
 
 
+def state_type(defn, name):
+    """Type of the state called `name` at any depth of the definition (state names are unique across the machine)."""
+    for nm, st_ in (defn.get("States") or {}).items():
+        if not isinstance(st_, dict):
+            continue
+        if nm == name:
+            return st_.get("Type")
+        for sub in list(st_.get("Branches") or []) + [st_.get(k) for k in ("Iterator", "ItemProcessor") if isinstance(st_.get(k), dict)]:
+            t = state_type(sub, name)
+            if t:
+                return t
+    return None
+
+
 def settled(arn):
     def until(w):
         b = w.broker
@@ -101,6 +115,24 @@ def run(case, schedule, crashes=(), seed=0, store="file"):
                 restart(c)
                 arm()
         w.broker.crash_at_op = None
+        # deliveries still unacknowledged at the end: is it a redelivered Task-state event whose request was never published (recorded finding F61)?
+        sent = {str(o.get("correlation_id")) for o in w.broker.oplog if o["kind"] == "publish" and o.get("reply_to")}
+        left = []
+        for conn in w.broker.connections:
+            if conn.owner != "engine:A":
+                continue
+            for ch in conn.channels:
+                for q, msg, consumer in ch.unacked.values():
+                    mid = str(getattr(msg.props, "message_id", None))
+                    is_task = False
+                    try:
+                        ev = json.loads(msg.body)
+                        is_task = state_type(case["definition"], ev["context"]["State"]["Name"]) == "Task"
+                    except Exception:
+                        pass
+                    left.append({"uid": msg.uid, "queue": q.name, "redelivered": bool(msg.redelivered), "task_event": is_task,
+                                 "request_sent": any(c == mid or c.startswith(mid + ".") for c in sent)})
+        out["leftover"] = left
         ends = [n for n in w.notifications_for(arn) if n["body"]["detail"]["status"] != "RUNNING"]
         out.update(outcome=H.detail_outcome(w.terminal(arn)), terminals=len(ends), announced=bool(w.notifications_for(arn)),
                    requests={fn: [(q["correlation_id"], q["redelivered"]) for q in wk.requests] for fn, wk in w.workers.items()},
@@ -153,7 +185,9 @@ def judge(case, base, got, crashes):
             if len(reqs) > len(base["requests"].get(fn, [])):
                 fails.append(("more-task-requests-than-baseline:" + tag, "function %s: %d requests, baseline %d" % (fn, len(reqs), len(base["requests"].get(fn, [])))))
     if got["unacked"] or got["ready"]:
-        fails.append(("leftover-after-restart:" + tag, "unacked=%d ready=%r" % (got["unacked"], got["ready"])))
+        left = got.get("leftover") or []
+        f61 = bool(left) and not got["ready"] and all(x["redelivered"] and x["task_event"] and not x["request_sent"] for x in left)
+        fails.append(("leftover-after-restart:" + tag + (":task-not-invoked-after-redelivery" if f61 else ""), "unacked=%d ready=%r %r" % (got["unacked"], got["ready"], left[:3])))
 
     for e in got["exceptions"]:
         fails.append(("engine-callback-exception:%s:%s:%s" % (e["type"], e["where"], tag), json.dumps(e)[:300]))
